@@ -6,6 +6,7 @@ import (
 	"bytes"
 	"context"
 	"fmt"
+	"hash/fnv"
 	"math/big"
 	"sort"
 	"strings"
@@ -118,6 +119,23 @@ func runMerklize(doc []byte, hs HSpec, loader ld.DocumentLoader, safe bool, extr
 			opts = append(opts, merklize.WithSafeMode(false))
 		}
 		opts = append(opts, extra...)
+		// options are independent settings: the order they are listed in is no input. It is varied with the document
+		// (rotation and reversal chosen by a hash of the bytes), so every order of every pair occurs across a run.
+		if len(opts) > 1 {
+			h := fnv.New32a()
+			_, _ = h.Write(doc)
+			k := int(h.Sum32())
+			if k < 0 {
+				k = -k
+			}
+			rot := k % len(opts)
+			opts = append(append([]merklize.MerklizeOption{}, opts[rot:]...), opts[:rot]...)
+			if (k/len(opts))%2 == 1 {
+				for i, j := 0, len(opts)-1; i < j; i, j = i+1, j-1 {
+					opts[i], opts[j] = opts[j], opts[i]
+				}
+			}
+		}
 		mz, err := merklize.MerklizeJSONLD(ctx, bytes.NewReader(doc), opts...)
 		if err != nil {
 			return 0, err
